@@ -29,6 +29,27 @@ counted 'buffer-shared:<op>') but not judged: the statement does not promise ind
 E3 (configuration product) - cells 'stats'/'ess': mean / median / variance / std / credible intervals for
 every configuration x credibility level against per-coordinate computations on the raw array; ESS / R-hat
 against per-variable arviz calls on the unpermuted chains.
+
+E4 (read-only operations, cells 'ro') - the operation alphabet is EVERY public consumer of the stored chain:
+mean / median / variance / std / compute_ci / ci_width (default and explicit level), burnthin (four (b,t) incl. the
+refused b=n), funvals / vector / parameters, copy / deepcopy, iteration, shape / Ns, repr, diagnostics(), the
+functions of cuqi.diagnostics on the stored array (Geweke with default and other fractions), to_arviz_inferencedata,
+compute_ess, compute_rhat (one chain / a list of chains), JointSamples.burnthin / repr where the object is a member,
+and the plotting helpers (matplotlib 'agg', no display: plot_mean / median / variance / std / ci_width / ci with and
+without exact / plot / plot_chain / hist_chain; in the thorough tier also the arviz plots), reduced to the data
+they draw.  The object under test comes in every ORIGIN that decides who else holds its storage: own C-ordered array,
+own F-ordered array, burnthin view of a longer parent, shallow copy of a parent, member of JointSamples.burnthin.
+Oracles: (1) every operation alone on a freshly built object leaves the complete fingerprint (stored values bit for
+bit, shape, dtype, flags, geometry identity and public face) of the object AND of every other holder of the storage
+(parent, joint siblings, the chains handed to R-hat) unchanged; (2) op1 -> op2 for all ordered pairs of the cheap
+operations, and two sweeps (all operations, forward and reverse order) on one live object: every result is
+bit-identical to the result of the same operation on a fresh object, and every fingerprint is still unchanged after
+every step (states are merged on the fingerprint only after it has been verified); (3) ESS / R-hat of the object are
+one value per stored row computed from that row's own chain(s) (arviz per row) or a refusal, whatever the
+representation; in the cells with pairs also the statistics oracle of E3 on the long chain and "Geweke's score of
+variable i is that of variable i's chain alone".  Chain lengths: 40 (shortest chain on which the spectral estimate of
+Geweke runs; for derived objects the parent is 2n+2 long so that [3::2] has n samples), 7 (everything that needs a
+long chain refuses - and must still leave the chain alone), thorough also 80.
 """
 import math
 
@@ -51,7 +72,16 @@ RULE = ("hist/joint cells = geometry x start representation x Ns; inside a cell 
         "use on the result (mean, funvals of the chain stored now); indep-joint likewise for JointSamples members and "
         "dictionary entries; stats cells = configuration x Ns, every statistic x credibility level compared "
         "per coordinate; ess cells = dimension x Ns x variable naming x number of extra chains.  A cell is "
-        "non-trivial when at least one operation returned a new object that was compared")
+        "non-trivial when at least one operation returned a new object that was compared.  ro cells = configuration x "
+        "origin of the object (own C/F-ordered array, burnthin view of a parent, shallow copy, JointSamples member) x "
+        "chain length: operation alphabet = every public consumer of the chain (statistics, credible intervals, burnthin, "
+        "conversions, copies, iteration, repr, diagnostics(), cuqi.diagnostics.Geweke on the stored array, arviz "
+        "conversion, ESS, R-hat, JointSamples.burnthin, plotting helpers on the agg backend); every operation alone on a "
+        "fresh object, all ordered pairs of the cheap operations (cells with pairs), forward and reverse sweep over all "
+        "operations on one object; after EVERY step the fingerprints (values bit for bit, shape, dtype, flags, geometry) "
+        "of the object and of every other holder of its storage / every chain passed in are compared with those before, "
+        "and every result is compared bit for bit with the result on a fresh object; ESS / R-hat results are compared "
+        "with arviz per stored row")
 BOUND = {
     "quick": "histories of length <= 3, start chains Ns=1..5, and of length 1 from Ns=6 (so the complete (b,t) boundary "
              "product b=0..Ns+1 x t=1..Ns+2 is decided on fresh chains of every length 1..6); independence / re-assignment "
@@ -60,10 +90,18 @@ BOUND = {
              "parameters and as function vectors, Continuous2D 2x3 par/fun, Image2D 2x3 C and F par/funvec/fun, "
              "StepExpansion 6 nodes/2 steps par/funvec) + JointSamples with 2 members; statistics: same configurations, "
              "Ns=1..7, credibility {0,50,68,95,99,100}; ESS/R-hat: dims {1,2,3,10,11,12,13}, Ns {25,40}, default and "
-             "custom (unsorted) variable names, 1-2 extra chains",
+             "custom (unsorted) variable names, 1-2 extra chains; read-only operations: 8 configurations (default dim 1/3 par, "
+             "default dim 2 funvec, Continuous2D fun, Image2D F par/funvec, Image2D C fun, StepExpansion funvec) x {burnthin "
+             "view of a parent n=40 with all ordered pairs of the 23 cheap operations, JointSamples member n=40, own array "
+             "n=40, own array n=7}, every cell with every operation alone + forward and reverse sweep over all operations; "
+             "matplotlib plotting helpers in the view cells of 3 configurations",
     "thorough": "same with start chains Ns=1..8 (length <= 3) plus all histories of length <= 4 from Ns=2..4, independence / "
                 "re-assignment cells with histories of length <= 2 from Ns=1..6, and 3 value "
-                "catalogues' worth of statistics inputs per cell",
+                "catalogues' worth of statistics inputs per cell; read-only operations: all 14 configurations x 5 origins "
+                "(own C / own F / burnthin view / shallow copy / joint member) x n in {7, 40, 80}, all with ordered pairs, "
+                "matplotlib plotting helpers for n=40 (every origin) and for the view cells of n=7 / 80, arviz plots for the n=40 "
+                "view cells of vector representations, "
+                "R-hat with one and with two further chains",
 }
 ASSUMPTIONS = [
     "burnthin with b >= Ns may raise (the library does) or return the empty slice; both accepted; for b < Ns a raise is a "
@@ -82,6 +120,17 @@ ASSUMPTIONS = [
     "default geometry); for Continuous2D, whose node order is not documented, the geometry's own per-sample map is "
     "the primitive (the geometry maps themselves are property C13)",
     "arviz.ess / arviz.rhat applied to ONE variable's chain is the trusted base for the diagnostics",
+    "read-only operations (ro cells): whether an operation refuses is not judged there (diagnostics / Geweke refuse chains "
+    "shorter than 40 samples and multi-dimensional function values, ESS / R-hat / arviz conversion refuse non-vector "
+    "samples, ...), only that refusing or not, and the result, do not depend on earlier read-only operations and that "
+    "nothing stored is changed; results are compared bit for bit (same process, same data: the library is deterministic "
+    "once numpy's global generator, which the plotting helpers use to pick variables, is re-seeded before every "
+    "operation); plots are reduced to the data of the artists they return (lines, images, meshes, polygons, bars); a "
+    "lazily filled attribute cache that is invisible through the public interface is not counted as a change",
+    "compute_ess / compute_rhat on vector samples that are not parameters: one value per stored row from that row's own "
+    "chain(s), or a refusal",
+    "Geweke's score being per variable (joint call == call on the single column) is demanded at 1e-12 as the analogue "
+    "for cuqi.diagnostics of 'each variable's chain unpermuted'",
 ]
 
 PERCENTS = [0, 50, 68, 95, 99, 100]
@@ -196,8 +245,20 @@ class Ref:
         return "%s%s:n=%d" % ("P" if self.is_par else "F", "v" if self.is_vec else "a", len(self.items))
 
 
+_VALUES_CACHE = {}
+
+
 def _values(shape, Ns, k, salt=0):
     """Deterministic raw samples of shape `shape + (Ns,)`: dyadic, all distinct within a coordinate."""
+    key = (tuple(shape), Ns, k, salt)
+    if key not in _VALUES_CACHE:
+        if len(_VALUES_CACHE) > 64:
+            _VALUES_CACHE.clear()
+        _VALUES_CACHE[key] = _values_build(shape, Ns, k, salt)
+    return _VALUES_CACHE[key].copy()
+
+
+def _values_build(shape, Ns, k, salt):
     dim = int(np.prod(shape))
     A = np.zeros((dim, Ns))
     for j in range(Ns):
@@ -230,6 +291,11 @@ HIST_CONFS = [("default1", "par"), ("default2", "par"), ("default3", "par"), ("d
               ("step", "par"), ("step", "funvec")]
 
 
+RO_CONFS_QUICK = [("default1", "par"), ("default3", "par"), ("default2", "funvec"), ("c2d", "fun"),
+                  ("imgF", "par"), ("imgF", "funvec"), ("imgC", "fun"), ("step", "funvec")]
+RO_PLOT_CONFS_QUICK = [("default3", "par"), ("imgF", "funvec"), ("c2d", "fun")]
+
+
 def cells(tier, seed):
     k = refs.cat(seed)
     nmax = 5 if tier == "quick" else 8
@@ -260,6 +326,20 @@ def cells(tier, seed):
             for names in ("default", "custom"):
                 for extra in (1, 2):
                     yield {"fam": "ess", "dim": d, "Ns": Ns, "names": names, "extra": extra, "cat": k}
+    if tier == "quick":
+        for kind, start in RO_CONFS_QUICK:
+            for origin, n, pairs in (("view", 40, True), ("joint", 40, False), ("own-C", 40, False), ("own-C", 7, False)):
+                plots = "mpl" if (origin == "view" and (kind, start) in RO_PLOT_CONFS_QUICK) else "none"
+                yield {"fam": "ro", "geom": kind, "start": start, "n": n, "origin": origin, "pairs": pairs, "plots": plots,
+                       "rhat2": False, "cat": k}
+    else:
+        for kind, start in HIST_CONFS:
+            for origin in RO_ORIGINS:
+                for n in (7, 40, 80):
+                    plots = "all" if (origin == "view" and n == 40 and start != "fun") else (
+                        "mpl" if (n == 40 or origin == "view") else "none")
+                    yield {"fam": "ro", "geom": kind, "start": start, "n": n, "origin": origin, "pairs": True, "plots": plots,
+                           "rhat2": True, "cat": k}
 
 
 # ----------------------------------------------------------------------------------------
@@ -987,7 +1067,377 @@ def eval_ess(cell, res):
     res.sample = {"ess": ess, "ess_reference": ref, "rhat": rh}
 
 
-FAMS = {"hist": eval_hist, "joint": eval_joint, "indep": eval_indep, "indep-joint": eval_indep_joint, "stats": eval_stats, "ess": eval_ess}
+# ----------------------------------------------------------------------------------------
+# E4: read-only operations - every consumer of the chain leaves every holder of the storage untouched, and its
+#     result does not depend on which other read-only operations ran before
+# ----------------------------------------------------------------------------------------
+RO_ORIGINS = ["own-C", "own-F", "view", "copy", "joint"]
+
+
+def _geom_digest(g):
+    """Public face of a geometry object (attribute caches that are filled lazily are not part of it)."""
+    out = [type(g).__name__]
+    for attr in ("par_shape", "fun_shape"):
+        try:
+            out.append(tuple(getattr(g, attr)))
+        except Exception:  # noqa
+            out.append("?")
+    try:
+        out.append(tuple(str(v) for v in g.variables))
+    except Exception:  # noqa
+        out.append("?")
+    return tuple(out)
+
+
+def _fp_vals(S):
+    a = S.samples
+    arr = np.asarray(a)
+    return (type(a).__name__, arr.shape, arr.dtype.str, arr.tobytes(), bool(S.is_par), bool(S.is_vec))
+
+
+def _fp_ro(S):
+    """Complete observable state of a Samples object: stored values bit for bit (shape, dtype), flags, the identity and
+    the public face of its geometry."""
+    return _fp_vals(S) + (id(S._geometry), _geom_digest(S._geometry))
+
+
+def _dig(x, depth=0):
+    """Canonical, bit-exact digest of what an operation returned (arrays, sample sets, containers, matplotlib artists
+    reduced to the data they draw)."""
+    import cuqi
+    if depth > 8:
+        return ("deep", type(x).__name__)
+    if x is None or isinstance(x, (bool, str)):
+        return x
+    if isinstance(x, cuqi.samples.Samples):
+        return ("Samples",) + _fp_vals(x) + (_geom_digest(x.geometry),)
+    if isinstance(x, (int, float, complex, np.generic)):
+        a = np.asarray(x)
+        return ("num", a.dtype.str, a.tobytes())
+    if isinstance(x, np.ndarray):
+        if x.dtype == object:
+            return ("objarr", x.shape, tuple(_dig(e, depth + 1) for e in x.ravel()))
+        a = np.ma.getdata(x) if isinstance(x, np.ma.MaskedArray) else x
+        return ("arr", a.shape, a.dtype.str, np.asarray(a).tobytes())
+    if isinstance(x, dict):       # insertion order is part of the result (variable order)
+        return ("dict", type(x).__name__, tuple((str(key), _dig(v, depth + 1)) for key, v in x.items()))
+    if isinstance(x, (list, tuple)):
+        return ("seq", tuple(_dig(e, depth + 1) for e in x))
+    if hasattr(x, "get_xydata"):                                        # Line2D
+        return ("line", _dig(np.asarray(x.get_xydata()), depth + 1))
+    if hasattr(x, "lines") and hasattr(x, "collections"):               # Axes: everything drawn in it
+        return ("axes",) + tuple(tuple(_dig(e, depth + 1) for e in getattr(x, attr))
+                                 for attr in ("lines", "collections", "images", "patches"))
+    if hasattr(x, "get_array"):                                         # images, meshes, poly / line collections
+        arr = x.get_array()
+        paths = x.get_paths() if hasattr(x, "get_paths") else []
+        return ("mappable", type(x).__name__, _dig(None if arr is None else np.asarray(np.ma.getdata(arr)), depth + 1),
+                tuple(_dig(np.asarray(pa.vertices), depth + 1) for pa in paths))
+    if hasattr(x, "get_bbox") and hasattr(x, "get_height"):             # Rectangle (histogram bar)
+        return ("rect", _dig(np.asarray(x.get_bbox().bounds, float), depth + 1))
+    if hasattr(x, "get_path"):
+        return ("patch", _dig(np.asarray(x.get_path().vertices), depth + 1))
+    return ("obj", type(x).__name__)
+
+
+class _RoCtx:
+    """One freshly built object under test T together with every other holder of (parts of) its storage and every
+    other chain handed to an operation ('watchers').  `want` is what T must store according to the reference."""
+
+    def __init__(self, cf, start, n, k, origin):
+        import copy as _copy
+        import cuqi
+        self.cf, self.n, self.origin = cf, n, origin
+        N = n if origin in ("own-C", "own-F", "copy") else 2 * n + 2       # parent length such that [3::2] has n samples
+        P, ref = _start(cf, start, N, k)
+        self.is_par, self.is_vec = ref.is_par, ref.is_vec
+        item = (cf.par_dim,) if ref.is_par else ((cf.funvec_dim,) if ref.is_vec else cf.fun_shape)
+        self.item = item
+        raw = ref.array(item)
+        self.joint = None
+        self.watch = []
+        if origin == "own-C":
+            self.T, self.want = P, raw
+        elif origin == "own-F":
+            P.samples = np.asfortranarray(raw.copy())
+            self.T, self.want = P, raw
+        elif origin == "copy":
+            self.T, self.want = _copy.copy(P), raw
+            self.watch.append(("shallow-copy-source", P, raw))
+        elif origin == "view":
+            self.T, self.want = P.burnthin(3, 2), raw[..., 3::2]
+            self.watch.append(("burnthin-source", P, raw))
+        else:
+            Sx, rx = _start(Conf("default2"), "par", N, k + 1)
+            rawx = rx.array((2,))
+            J = cuqi.samples.JointSamples({"x": Sx, "y": P})
+            J2 = J.burnthin(3, 2)
+            self.joint = J2
+            self.T, self.want = J2["y"], raw[..., 3::2]
+            self.watch += [("joint-source-member", P, raw), ("joint-source-sibling", Sx, rawx),
+                           ("joint-sibling", J2["x"], rawx[..., 3::2])]
+        self.watch.insert(0, ("object", self.T, self.want))
+        # further chains handed to R-hat: same geometry, same representation
+        self.others = []
+        for s in (11, 12):
+            w = _values(item, n, k, salt=s)
+            O = cuqi.samples.Samples(w.copy(), geometry=self.T.geometry, is_par=ref.is_par, is_vec=ref.is_vec)
+            self.others.append(O)
+            self.watch.append(("rhat-chain", O, w))
+        self.exact = np.mean(self.want, axis=-1)
+        for _, S, _w in self.watch:
+            S.geometry               # created lazily on first access: before anything is fingerprinted
+
+    def built_right(self):
+        for name, S, want in self.watch:
+            got = np.asarray(S.samples)
+            if got.shape != want.shape or not np.array_equal(got, want):
+                return name
+        return None
+
+    def fps(self):
+        return [_fp_ro(S) for _, S, _ in self.watch]
+
+    def changed(self, fps0):
+        out = []
+        for (name, S, want), f0 in zip(self.watch, fps0):
+            if _fp_ro(S) != f0:
+                got = np.asarray(S.samples)
+                if got.shape == want.shape and got.dtype.kind == "f":
+                    out.append("%s (stored values moved by up to %.3g)" % (name, float(np.max(np.abs(got - want))) if got.size else 0.0))
+                else:
+                    out.append("%s (shape/dtype/flags/geometry)" % name)
+        return out
+
+
+def _ro_ops(ctx, plots, rhat2=True):
+    """Operation alphabet of the read-only histories: (label, group, callable(ctx) -> result).
+    group 'cheap' operations are also the second operation of every pair; 'heavy' ones (arviz statistics, plotting)
+    are first operations of pairs and members of the two sweeps."""
+    from cuqi.diagnostics import Geweke
+    import copy as _copy
+    n = ctx.n
+    d = int(np.prod(ctx.item))
+    last = [0, n - 1] if n > 1 else [0]
+    ops = [
+        ("mean", "cheap", lambda c: c.T.mean()),
+        ("median", "cheap", lambda c: c.T.median()),
+        ("variance", "cheap", lambda c: c.T.variance()),
+        ("std", "cheap", lambda c: c.T.std()),
+        ("compute_ci", "cheap", lambda c: c.T.compute_ci()),
+        ("compute_ci(50)", "cheap", lambda c: c.T.compute_ci(50)),
+        ("ci_width", "cheap", lambda c: c.T.ci_width()),
+        ("ci_width(50)", "cheap", lambda c: c.T.ci_width(50)),
+        ("burnthin(0)", "cheap", lambda c: c.T.burnthin(0)),
+        ("burnthin(3,2)", "cheap", lambda c: c.T.burnthin(3, 2)),
+        ("burnthin(n-1,1)", "cheap", lambda c: c.T.burnthin(n - 1, 1)),
+        ("burnthin(n)", "cheap", lambda c: c.T.burnthin(n)),
+        ("funvals", "cheap", lambda c: c.T.funvals),
+        ("vector", "cheap", lambda c: c.T.vector),
+        ("parameters", "cheap", lambda c: c.T.parameters),
+        ("copy", "cheap", lambda c: _copy.copy(c.T)),
+        ("deepcopy", "cheap", lambda c: _copy.deepcopy(c.T)),
+        ("iterate", "cheap", lambda c: [np.array(v) for v in c.T]),
+        ("shape/Ns", "cheap", lambda c: (tuple(c.T.shape), int(c.T.Ns))),
+        ("repr", "cheap", lambda c: repr(c.T)),
+        ("diagnostics", "cheap", lambda c: c.T.diagnostics()),
+        ("Geweke", "heavy", lambda c: Geweke(c.T.samples.T)),
+        ("Geweke(A=.25,B=.25)", "heavy", lambda c: Geweke(c.T.samples.T, 0.25, 0.25)),
+        ("to_arviz_inferencedata", "cheap", lambda c: c.T.to_arviz_inferencedata()),
+        ("to_arviz_inferencedata([0])", "cheap", lambda c: c.T.to_arviz_inferencedata([0])),
+        ("compute_ess", "heavy", lambda c: c.T.compute_ess()),
+        ("compute_rhat(chain)", "heavy", lambda c: c.T.compute_rhat(c.others[0])),
+    ]
+    if rhat2:
+        ops.append(("compute_rhat([2 chains])", "heavy", lambda c: c.T.compute_rhat(list(c.others))))
+    if ctx.joint is not None:
+        ops += [("joint.burnthin(1,2)", "cheap", lambda c: dict(c.joint.burnthin(1, 2))),
+                ("joint.repr", "cheap", lambda c: repr(c.joint))]
+    if plots in ("mpl", "all"):
+        ops += [
+            ("plot_mean", "heavy", lambda c: c.T.plot_mean()),
+            ("plot_median", "heavy", lambda c: c.T.plot_median()),
+            ("plot_variance", "heavy", lambda c: c.T.plot_variance()),
+            ("plot_std", "heavy", lambda c: c.T.plot_std()),
+            ("plot_ci_width", "heavy", lambda c: c.T.plot_ci_width()),
+            ("plot_ci", "heavy", lambda c: c.T.plot_ci()),
+            ("plot_ci(68,exact)", "heavy", lambda c: c.T.plot_ci(68, exact=c.exact.copy())),
+            ("plot", "heavy", lambda c: c.T.plot()),
+            ("plot(indices)", "heavy", lambda c: c.T.plot(list(last))),
+            ("plot_chain", "heavy", lambda c: c.T.plot_chain()),
+            ("plot_chain([0])", "heavy", lambda c: c.T.plot_chain([0])),
+            ("hist_chain", "heavy", lambda c: c.T.hist_chain([0, d - 1] if d > 1 else [0])),
+        ]
+    if plots == "all":
+        two = [0, d - 1] if d > 1 else [0]
+        ops += [
+            ("plot_autocorrelation", "heavy", lambda c: c.T.plot_autocorrelation(two)),
+            ("plot_trace", "heavy", lambda c: c.T.plot_trace(two, exact=c.exact.copy() if c.exact.ndim == 1 else None)),
+            ("plot_pair", "heavy", lambda c: c.T.plot_pair(two)),
+            ("plot_violin", "heavy", lambda c: c.T.plot_violin(two)),
+        ]
+    return ops
+
+
+def _ro_run(fn, ctx, plotting, keep=None):
+    """Run one operation on the real objects; the result (or the refusal) as a digest."""
+    np.random.seed(190019)        # the plotting helpers pick variables / samples with the global generator when not told
+    try:
+        raw = fn(ctx)
+        if keep is not None:
+            keep.append(raw)
+        out = _dig(raw)
+    except Exception as e:  # noqa   a refusal; whether it is consistent is what is judged
+        out = ("raises", type(e).__name__)
+    if plotting:
+        import matplotlib.pyplot as plt
+        plt.close("all")
+    return out
+
+
+def eval_ro(cell, res):
+    from cuqi.diagnostics import Geweke
+    cf = Conf(cell["geom"])
+    n, k, origin, start, plots = cell["n"], cell["cat"], cell["origin"], cell["start"], cell["plots"]
+    seen = set()
+
+    def comp(label):
+        return "JointSamples" if label.startswith("joint.") else ("diagnostics" if label.startswith("Geweke") else "Samples")
+
+    def fail(label, what, msg, **d):
+        sig = "C19|%s|%s|%s" % (comp(label), label[6:] if label.startswith("joint.") else label, what)
+        if sig not in seen:
+            seen.add(sig)
+            res.fail(sig, msg, **d)
+
+    def build():
+        return _RoCtx(cf, start, n, k, origin)
+    ctx0 = build()
+    bad = ctx0.built_right()
+    res.transitions += 1
+    if bad is not None:
+        # construction / derivation itself is judged by the hist cells; nothing to build on here
+        res.count("ro-not-built:" + bad)
+        return
+    key = "%s%s:n=%d:%s" % ("P" if ctx0.is_par else "F", "v" if ctx0.is_vec else "a", n, origin)
+    res.state("ro:" + key)
+    ops = _ro_ops(ctx0, plots, cell["rhat2"])
+    pairs = cell["pairs"]
+    plotting = plots != "none"
+    fps_built = ctx0.fps()
+    if pairs:
+        # the statistics of this (longer) chain against the per-coordinate reference, and the Geweke scores per variable
+        _check_stats(res, lambda op, what, msg, **d: fail(op, what, msg, **d), ctx0.T, ctx0.want, "ro-" + origin)
+        if ctx0.is_vec and len(ctx0.item) == 1:
+            X = np.ascontiguousarray(ctx0.want.T)
+            try:
+                z, p = Geweke(X.copy())
+                cols = [Geweke(X[:, [i]].copy()) for i in range(X.shape[1])]
+            except Exception:  # noqa   chain too short for the spectral estimate
+                res.count("geweke-refuses:n=%d" % n)
+            else:
+                res.transitions += 1 + len(cols)
+                res.evaluations += 1
+                zz, pp = np.array([c[0][0] for c in cols]), np.array([c[1][0] for c in cols])
+                if not (close(z, zz, 1e-12) and close(p, pp, 1e-12)):
+                    fail("Geweke", "per-variable", "Geweke's z-score / p-value of variable i in the joint call differs from that "
+                         "of variable i's chain alone", impl=[z, p], ref=[zz, pp])
+                else:
+                    res.outcomes.add("geweke-per-variable:%d" % X.shape[1])
+        ch = ctx0.changed(fps_built)
+        if ch:
+            fail("statistics", "source-altered", "computing the statistics changed: %s" % "; ".join(ch))
+            return
+    # level 1: every operation alone on a fresh object - fresh result, every holder of the storage untouched
+    fresh, dirty, misjudged = {}, set(), set()
+    for label, group, fn in ops:
+        ctx = build()
+        fps0 = ctx.fps()
+        res.transitions += 1
+        res.traces += 1
+        keep = [] if label.startswith(("compute_ess", "compute_rhat")) else None
+        fresh[label] = _ro_run(fn, ctx, plotting, keep)
+        refused = isinstance(fresh[label], tuple) and fresh[label][:1] == ("raises",)
+        if keep and ctx.is_vec and len(ctx.item) == 1:
+            # ESS / R-hat of this representation: one value per stored row, that of the row's own chain(s)
+            import arviz
+            d = ctx.item[0]
+            facet = "repr=par" if ctx.is_par else ("repr=funvec" if d == cf.par_dim else "repr=funvec,rows!=par_dim")
+            W = [ctx.want] + [w for name, _, w in ctx.watch if name == "rhat-chain"][:2 if "2 chains" in label else 1]
+            if label == "compute_ess":
+                want = np.array([float(arviz.ess(W[0][i].copy())) for i in range(d)])
+            else:
+                want = np.array([float(arviz.rhat(np.array([w[i] for w in W]))) for i in range(d)])
+            try:
+                got = np.asarray(keep[0], float)
+            except Exception:  # noqa   not an array of numbers at all
+                got = np.zeros(0)
+            res.evaluations += 1
+            if got.shape != (d,) or not close(got, want, 1e-9):
+                misjudged.add(label)
+                fail(label.split("(")[0], "values," + facet, "%s of a %s chain with %d stored rows returned %s; one value per row, "
+                     "computed from that row's own chain(s), is %s" % (label, key, d, got, want), impl=got, ref=want)
+            else:
+                res.outcomes.add("%s-per-row:%s" % (label, facet))
+        if refused:
+            res.refused += 1
+        res.count(("ro-refused:" if refused else "ro-ran:") + label)
+        res.outcomes.add("%s:%s" % (label, "refused" if refused else "ran"))
+        res.evaluations += 1
+        ch = ctx.changed(fps0)
+        if ch:
+            dirty.add(label)
+            fail(label, "source-altered", "%s on a %s chain of %d samples (origin %s) is a read-only operation but changed: %s"
+                 % (label, key, n, origin, "; ".join(ch)), origin=origin, n=n)
+    if res.sample is None:
+        res.sample = {"origin": origin, "operations": [o[0] for o in ops], "refused": sorted(
+            lab for lab, v in fresh.items() if isinstance(v, tuple) and v[:1] == ("raises",))}
+    # operations already reported (altering their source / wrong values) are left out of the histories
+    clean = [o for o in ops if o[0] not in dirty and o[0] not in misjudged]
+    cheap = [o for o in clean if o[1] == "cheap"]
+
+    def follow(ctx, fps0, hist, label, fn):
+        """one further operation on a live object: same result as on a fresh one, everything still untouched"""
+        res.transitions += 1
+        got = _ro_run(fn, ctx, plotting)
+        res.evaluations += 2
+        if got != fresh[label]:
+            fail(label, "result-depends-on-history", "%s after %s gives another result than on a fresh object (origin %s, n=%d)"
+                 % (label, hist, origin, n), history=hist + [label])
+        ch = ctx.changed(fps0)
+        if ch:
+            fail(label, "source-altered", "%s after %s changed: %s" % (label, hist, "; ".join(ch)), history=hist + [label])
+            return False
+        return True
+    # level 2: op1 -> op2 for every op1 and every cheap op2.  States are merged on the complete fingerprint: the object
+    # is re-used for the next op2 only because every step so far was verified to leave every fingerprint unchanged.
+    for label1, _, fn1 in (cheap if pairs else []):
+        ctx = build()
+        fps0 = ctx.fps()
+        res.traces += 1
+        res.transitions += 1
+        _ro_run(fn1, ctx, plotting)
+        if ctx.changed(fps0):          # cannot happen for a clean operation unless it is history dependent itself
+            fail(label1, "source-altered", "%s changed its source on the second fresh object" % label1)
+            continue
+        for label2, _, fn2 in cheap:
+            if not follow(ctx, fps0, [label1], label2, fn2):
+                break
+    # sweeps: all operations (heavy ones included) one after the other on ONE object, in both orders - every ordered pair
+    # (a before b) occurs in one of them
+    for order in (clean, clean[::-1]):
+        ctx = build()
+        fps0 = ctx.fps()
+        res.traces += 1
+        hist = []
+        for label, _, fn in order:
+            ok = follow(ctx, fps0, list(hist), label, fn)
+            hist.append(label)
+            if not ok:
+                break
+
+
+FAMS = {"hist": eval_hist, "joint": eval_joint, "indep": eval_indep, "indep-joint": eval_indep_joint, "stats": eval_stats, "ess": eval_ess, "ro": eval_ro}
 
 
 def _library_frame(exc):
